@@ -126,10 +126,126 @@ def rule_d(R, ctx):
          "self.delete_set.encode(encoder) unconditionally at the end: %d site(s)" % len(enc))
 
 
+def _nshow(t):
+    def norm(t):
+        t = simp_deep(t)
+        if isinstance(t, tuple):
+            if t and t[0] == "call":
+                return ("call", t[1], tuple(norm(a) for a in t[2]))
+            return tuple(norm(x) for x in t)
+        return t
+    return show(norm(t), 10)
+
+
+def cmp_name(term):
+    """canonical name of an ordering atom: Lt(a,b) == Gt(b,a) == !Le(b,a) == !Ge(a,b)."""
+    t = simp_deep(term)
+    if t[0] != "bin" or t[1] not in ("Lt", "Gt", "Le", "Ge"):
+        return None
+    a, b = _nshow(t[2]), _nshow(t[3])
+    if t[1] == "Lt":
+        return "LT:%s|%s" % (a, b)
+    if t[1] == "Gt":
+        return "LT:%s|%s" % (b, a)
+    if t[1] == "Le":
+        return "!LT:%s|%s" % (b, a)
+    return "!LT:%s|%s" % (a, b)
+
+
+def natural_loop(fn, tail, head):
+    cfg = fn.cfg()
+    body = {head, tail}
+    st = [tail]
+    while st:
+        n = st.pop()
+        if n == head:
+            continue
+        for p in cfg.pred[n]:
+            if p not in body:
+                body.add(p)
+                st.append(p)
+    return body
+
+
+def rule_e(R, ctx):
+    from ylib.formula import Formulas, truth_check, fshow, atoms_of
+    Y = ctx.yrs
+    R.rule("C08.e", "R-ORDER/R-GUARD sort before gap: Update::merge_updates picks the head of the decoders sorted at the top of each "
+                    "round; a Skip for a gap in a client's clocks may only be synthesised for that head. Once the round has advanced "
+                    "the head decoder past blocks already written (move_next inside the round, before the gap decision), another "
+                    "input may hold the blocks that fill the gap: the creation of a Skip must then be unreachable in that round "
+                    "(path formula of the Skip construction AND `advanced` is unsatisfiable) — the round has to re-sort first")
+    fn = Y.fn("yrs::update::Update::merge_updates")
+    cfg = fn.cfg()
+    sorts = [cs for cs in fn.calls() if re.search(r"::sort(_unstable)?(_by(_key)?)?$", F.strip_generics(cs.name))]
+    R.floor("C08.e", "sort of the decoders in merge_updates", len(sorts), 1)
+    skips = sorted({i for i, j, st in fn.stmts() if "agg" in st["rv"] and st["rv"]["agg"].get("variant") == "Skip"
+                    and str(st["rv"]["agg"].get("adt", "")).endswith("block::Block")})
+    R.floor("C08.e", "Skip constructions in merge_updates", len(skips), 1)
+    if not sorts or not skips:
+        return
+    H = sorts[0].bb
+    fm = Formulas(fn, simp_deep)
+    fm.expand = False
+    back = fm.back_edges()
+    moves = [cs for cs in fn.calls_to("yrs::update::Memo::move_next")]
+    R.floor("C08.e", "move_next calls in merge_updates", len(moves), 4)
+    n = 0
+    for S in skips:
+        for cs, site in ordinal_sites(moves):
+            # can the Skip construction be reached from this advance without passing the sort?
+            seen = {cs.bb}
+            st = [cs.bb]
+            reach = False
+            while st:
+                b = st.pop()
+                for nx in fn.succ(b):
+                    if nx == H or nx in seen or fn.blocks[nx].get("cleanup"):
+                        continue
+                    if nx == S:
+                        reach = True
+                    seen.add(nx)
+                    st.append(nx)
+            if not reach:
+                continue
+            n += 1
+            # flags set in the loop that contains the advance
+            loops = [natural_loop(fn, t, h) for (t, h) in back if cs.bb in natural_loop(fn, t, h)]
+            inner = min(loops, key=len) if loops else {cs.bb}
+            flags = set()
+            for i, j, stmt in fn.stmts():
+                d = stmt["dst"]
+                if i in inner and isinstance(d, int) and fn.local_ty(d) == "bool" and isinstance(stmt["rv"].get("use"), dict) \
+                        and stmt["rv"]["use"].get("k") == 1:
+                    flags.add(d)
+            f = fm.reach_from(H, S)
+            ats = atoms_of(f)
+            flag_keys = {k for k, t in ats.items() if isinstance(t, tuple) and t and t[0] == "flag" and t[1] in flags}
+            if not flag_keys:
+                R.ob("C08.e", fn, "gap-after:" + site, False,
+                     "the Skip construction (bb%d) is reachable from this advance of the head decoder without re-sorting, and its path "
+                     "condition does not depend on any record of the advance (flags set with it: %s): a gap that another input fills is "
+                     "written as Skip and that input's blocks are then dropped as already written" % (S, sorted(fn.local_name(x) or x for x in flags)),
+                     cs.loc())
+                continue
+
+            def classify(k, t):
+                if k in flag_keys:
+                    return "ADV"
+                return cmp_name(t)
+
+            ok, cex, keys = truth_check(f, classify, lambda named: False if named.get("ADV") else None, max_atoms=16)
+            R.ob("C08.e", fn, "gap-after:" + site, ok,
+                 "Skip construction is unreachable in a round that advanced the head decoder (%d atoms)" % len(keys) if ok else
+                 "Skip construction reachable although the head decoder was advanced in this round: %s" % (cex,), cs.loc())
+    R.floor("C08.e", "advance sites that reach the gap decision without a sort", n, 1)
+
+
 def check(ctx, R):
     from . import wire_rules
     R.run("C08.a", rule_a, ctx)
     R.run("C08.b", rule_b, ctx)
     R.run("C08.c", wire_rules.c08_c, ctx)
     R.run("C08.d", rule_d, ctx)
+    R.run("C08.e", rule_e, ctx)
     return {}
